@@ -11,6 +11,7 @@
 (*       accepted by prefix, identity public key / identity A / e = 0       *)
 (*       accepted                                                           *)
 (*   F5  unchecked "+ 1" on caller-supplied indexes -> Panic                *)
+(*   F14 generator loop bound count + 1 overflows for count = usize::MAX    *)
 (* Field lists come from Layouts!Wires, so the framing checked here is the  *)
 (* framing the reference evaluator and the toy model use.                   *)
 (***************************************************************************)
@@ -134,6 +135,8 @@ BlindProofVerifyCounts(U, L, ix1, ix2, nmsgs) ==
 UpdateCounts(idx, n) ==
   IF idx = MaxU /\ "F5" \in Dev THEN R3("Panic", n + 1)
   ELSE IF n = MaxU THEN R3("Err", 0)                       \* n + 1 does not exist
+  \* F14: the generator loop of the pinned code runs over 1 .. count + 1 (exclusive): count = n + 1 = MaxU overflows
+  ELSE IF n = MaxU - 1 /\ idx < n /\ "F14" \in Dev THEN R3("Panic", n + 1)
   ELSE IF idx >= n THEN R3("Err", n + 1)
   ELSE R3("Pass", n + 1)
 
